@@ -35,7 +35,6 @@ exercised only by the harness's in-place-edit histories), errors of the underlyi
 Core Lean only. All functions are total (structural recursion).
 -/
 import Model.Fmt.Reader
-import Model.Fmt.Files
 
 namespace Fmt
 
@@ -64,9 +63,12 @@ structure WParams where
   /-- `fmt.Sprintf("%v", math.Float64frombits(bits))` -/
   fmtNum : UInt64 → Bytes
 
+/-- decimal digits of a natural number, as ASCII bytes -/
+def decimalDigits (n : Nat) : Bytes := (Nat.toDigits 10 n).map (fun c => UInt8.ofNat c.toNat)
+
 /-- `fmt.Sprintf("%d", n)` -/
 def fmtInt (n : Int) : Bytes :=
-  if n < 0 then 45 :: decimal n.natAbs else decimal n.toNat
+  if n < 0 then 45 :: decimalDigits n.natAbs else decimalDigits n.toNat
 
 /-- `idx, ok := res.ConfigIndex(key)`; then `&res.Config[idx]`. -/
 def cfgAt (config : List Cfg) (key : Bytes) : Option Cfg :=
